@@ -200,23 +200,23 @@ Section Respects.
     intros d s s' H. unfold skip_all_semis. destruct (Rs_cursor _ _ H) as [Ht _]. rewrite <- Ht.
     apply resp_skip_semis. exact H.
   Qed.
-  Lemma resp_statements_loop A n (stmt stmt' : M A) :
-    Respects stmt stmt' -> forall e acc, Respects (statements_loop n stmt e acc) (statements_loop n stmt' e acc).
+  Lemma resp_statements_loop A blk n (stmt stmt' : M A) :
+    Respects stmt stmt' -> forall e acc, Respects (statements_loop blk n stmt e acc) (statements_loop blk n stmt' e acc).
   Proof.
     intro Hs. induction n as [|n IH]; intros e acc; cbn [statements_loop]; [apply resp_diverge|].
     apply resp_bind; [apply resp_peek|]. intro t0. apply resp_bind; [apply resp_skip_all_semis|]. intros _.
     apply resp_bind; [apply resp_peek|]. intro t.
     assert (G : Respects
-                  (if (if token_eqb (tok t0) (TP PSemi) then false else e) && is_kw (s2l "END") t
+                  (if blk && (if token_eqb (tok t0) (TP PSemi) then false else e) && is_kw (s2l "END") t
                    then ret (rev acc)
                    else if (if token_eqb (tok t0) (TP PSemi) then false else e)
                         then expected (s2l "end of statement") t
-                        else a <- stmt ;; statements_loop n stmt true (a :: acc))
-                  (if (if token_eqb (tok t0) (TP PSemi) then false else e) && is_kw (s2l "END") t
+                        else a <- stmt ;; statements_loop blk n stmt true (a :: acc))
+                  (if blk && (if token_eqb (tok t0) (TP PSemi) then false else e) && is_kw (s2l "END") t
                    then ret (rev acc)
                    else if (if token_eqb (tok t0) (TP PSemi) then false else e)
                         then expected (s2l "end of statement") t
-                        else a <- stmt' ;; statements_loop n stmt' true (a :: acc))).
+                        else a <- stmt' ;; statements_loop blk n stmt' true (a :: acc))).
     { apply resp_if. apply resp_ret. apply resp_if. apply resp_expected. apply resp_bind; auto. }
     destruct (tok t); try exact G. apply resp_ret.
   Qed.
@@ -469,16 +469,16 @@ Section Iface.
     (forall rec, (forall x, Iface A (rec x)) -> forall x, Iface A (F rec x)) ->
     forall n x, Iface A (mfix F n x).
   Proof. intros H n. induction n; intro x; cbn [mfix]. apply I_diverge. apply H. assumption. Qed.
-  Lemma I_statements_loop A n stmt : Iface A stmt -> forall e acc, Iface _ (statements_loop n stmt e acc).
+  Lemma I_statements_loop A blk n stmt : Iface A stmt -> forall e acc, Iface _ (statements_loop blk n stmt e acc).
   Proof.
     intro Hs. induction n as [|n IH]; intros e acc; cbn [statements_loop]. apply I_diverge.
     apply I_bind. apply I_peek. intro t0. apply I_bind. apply I_skip_all_semis. intros _.
     apply I_bind. apply I_peek. intro t.
-    assert (G : Iface _ (if (if token_eqb (tok t0) (TP PSemi) then false else e) && is_kw (s2l "END") t
+    assert (G : Iface _ (if blk && (if token_eqb (tok t0) (TP PSemi) then false else e) && is_kw (s2l "END") t
                          then ret (rev acc)
                          else if (if token_eqb (tok t0) (TP PSemi) then false else e)
                               then expected (s2l "end of statement") t
-                              else a <- stmt ;; statements_loop n stmt true (a :: acc))).
+                              else a <- stmt ;; statements_loop blk n stmt true (a :: acc))).
     { apply I_if. apply I_ret. apply I_if. apply I_expected. apply I_bind; auto. }
     destruct (tok t); try exact G. apply I_ret.
   Qed.
